@@ -1,3 +1,6 @@
+#include <algorithm>
+#include <limits>
+
 #include "VM/include/program.hpp"
 #include "VM/include/vm.hpp"
 
@@ -112,10 +115,12 @@ bool VM::executeSingle() {
       // i.parameters.add.source << " + " << i.parameters.add.constant <<
       // std::endl;
       WordIndex base = this->stack.back().data_start;
-      this->data[base + i.parameters.add.target] =
-          std::max(this->data[base + i.parameters.add.source] +
-                       i.parameters.add.constant,
-                   0);
+      // compute in 64 bit: the sum of two words may not fit a word; the
+      // result saturates at both ends of the natural-number word range
+      long long sum = (long long)this->data[base + i.parameters.add.source] +
+                      (long long)i.parameters.add.constant;
+      this->data[base + i.parameters.add.target] = (Word)std::min<long long>(
+          std::max<long long>(sum, 0), std::numeric_limits<Word>::max());
       this->instruction_pointer++;
       break;
     }
